@@ -28,7 +28,7 @@ ITEM_TIMEOUT = {"quick": 900, "thorough": 3400}
 
 
 def bounds(tier):
-    return "bin configurations (nbins, binmin, binmax) in %r; one loop iteration from an arbitrary state; tail (DOS files, returned array) once; %d reference runs" % (CONFIGS[tier], 2 if tier == "quick" else 6)
+    return "bin configurations (nbins, binmin, binmax) in %r; one loop iteration from an arbitrary state; tail (DOS files, returned array) once; %d reference runs" % (CONFIGS[tier], 2 if tier == "quick" else 12)
 
 
 def items(tier, seed):
@@ -38,7 +38,7 @@ def items(tier, seed):
     for nb in ((2, 4) if tier == "quick" else (2, 3, 4, 5)):
         for crit in (0.5, 0.25, 0.7):
             out.append(dict(name="flatcheck_n%d_crit%s" % (nb, crit), kind="flatcheck", cfg=[nb, 0.0, 1.0], crit=crit))
-    for i in range(2 if tier == "quick" else 6):
+    for i in range(2 if tier == "quick" else 12):
         out.append(dict(name="reference_run_%d" % i, kind="trace", seedv=i, cfg=list(CONFIGS[tier][i % 2])))
     return out
 
